@@ -2,7 +2,9 @@
 // A result with one answer record of TTL IN_TTL is put; then the question is looked up IN_DT seconds later.
 // Time is advanced without sleeping by moving the stored expiry instants back by IN_DT seconds (private members are
 // reachable through -fno-access-control); for IN_TTL == 0 nothing is tampered with: the lookup simply happens 50 ms later.
-// input file:  IN_TTL <seconds>   IN_DT <seconds>
+// Optional IN_OLD_TTL: the same question is first put with a result of that (longer) TTL, then REPLACED by the IN_TTL result (update path of
+// ExpiringCache::set).
+// input file:  IN_TTL <seconds>   IN_DT <seconds>   [IN_OLD_TTL <seconds>]
 #include "iora/network/dns/dns_cache.hpp"
 #include "replay_io.h"
 #include <thread>
@@ -16,8 +18,30 @@ int main(int argc, char **argv)
   if (dt < 0) dt = 0;
   DnsCache cache(std::chrono::seconds(300));
   DnsQuestion q("example.com", DnsType::A, DnsClass::IN);
+  if (in.count("IN_SOA_TTL"))
+  {
+    // negative caching (RFC 2308 5): TTL = min(SOA MINIMUM, SOA TTL); looked up IN_DT seconds later
+    uint32_t sttl = (uint32_t)replay_io::u64(in["IN_SOA_TTL"]), smin = (uint32_t)replay_io::u64(in["IN_SOA_MIN"]);
+    uint32_t want = std::min(sttl, smin);
+    DnsResult neg;
+    neg.soa_records.push_back(SoaRecord("example.com", "ns.example.com", "admin.example.com", 1, 2, 3, 4, smin, sttl));
+    cache.putNegative(q, neg, "NXDOMAIN");
+    if (want == 0) std::this_thread::sleep_for(std::chrono::milliseconds(50));
+    else { std::lock_guard<std::mutex> lock(cache.cache_->_mutex); for (auto &kv : cache.cache_->_cache) kv.second.expiration -= std::chrono::seconds(dt); }
+    DnsResult out; bool hit = cache.get(q, out);
+    if (hit && (want == 0 || (unsigned long long)dt >= want))
+      replay_io::fail("N1: a negative answer is served " + std::to_string(dt) + " s after putNegative although min(SOA MINIMUM " + std::to_string(smin) + ", SOA TTL " + std::to_string(sttl) + ") = " + std::to_string(want) + " s");
+    replay_io::ok("negative answer honours min(SOA MINIMUM, SOA TTL)");
+    return 0;
+  }
   DnsResult res;
   res.answers.push_back(DnsResourceRecord("example.com", DnsType::A, DnsClass::IN, ttl));
+  if (in.count("IN_OLD_TTL"))
+  {
+    DnsResult old;
+    old.answers.push_back(DnsResourceRecord("example.com", DnsType::A, DnsClass::IN, (uint32_t)replay_io::u64(in["IN_OLD_TTL"])));
+    cache.put(q, old);
+  }
   cache.put(q, res);
   if (ttl == 0)
   {
